@@ -235,11 +235,50 @@ def classify_consumption(ctx, b, cs):
     return ('dropped', False, 'result is never inspected: the I/O error is dropped')
 
 
+def eof_edges(b, cs):
+    """Edges on which the error of a `read_exact` call is known to be ErrorKind::UnexpectedEof (a short file):
+    the only I/O 'error' that is an answer (no block) rather than a failure."""
+    if not cs.name.endswith('read_exact'):
+        return []
+    out = []
+    def is_eof_const(l):
+        if l is None:
+            return False
+        for o in b.trace_local(l):
+            if o[0] == 'const' and any(t == 'variant:std::io::ErrorKind::UnexpectedEof' for t in o[2].get('promoted_texts', [])):
+                return True
+            if o[0] == 'rv' and o[2]['k'] == 'ref':
+                for o2 in b.trace_local(o[2]['place']['l']):
+                    if o2[0] == 'rv' and o2[2]['k'] == 'agg' and o2[2].get('variant') == 'UnexpectedEof':
+                        return True
+                    if o2[0] == 'const' and any(t == 'variant:std::io::ErrorKind::UnexpectedEof' for t in o2[2].get('promoted_texts', [])):
+                        return True
+        return False
+    def is_kind(l):
+        if l is None:
+            return False
+        for o in b.trace_local(l):
+            if o[0] == 'call' and o[1].name == 'std::io::Error::kind':
+                return True
+            if o[0] == 'rv' and o[2]['k'] == 'ref':
+                if any(o2[0] == 'call' and o2[1].name == 'std::io::Error::kind' for o2 in b.trace_local(o[2]['place']['l'])):
+                    return True
+        return False
+    for (bi, c, te, fe, c2) in b.switches_on_call(lambda c: re.search(r'<std::io::ErrorKind as std::cmp::PartialEq>::(eq|ne)$', c.name) is not None):
+        a0, a1 = c2.arg_local(0), c2.arg_local(1)
+        if (is_kind(a0) and is_eof_const(a1)) or (is_kind(a1) and is_eof_const(a0)):
+            out.append(fe if c2.name.endswith('::ne') else te)
+    return out
+
+
 def err_region_escapes(ctx, b, tgt, cs):
     """From point tgt (entry of an error arm): can we reach an Ok exit or come back to the call?"""
     r = b.reach([tgt])
+    eof = eof_edges(b, cs)
     for e in b.exits():
         if e['kind'] in ('ok', 'some', 'none', 'value') and e['point'] in r:
+            if eof and e['point'] not in b.reach([tgt], avoid_edges=eof):
+                continue    # only reachable through `kind() == UnexpectedEof`: a short file, not a failure
             return 'reach a success return (%s)' % b.loc(e['point'])
     if cs.point in r:
         return 'go round the loop and retry (%s)' % b.loc(cs.point)
@@ -257,14 +296,6 @@ def err1(ctx):
         for cs in io_result_sites(ctx, b):
             kind, ok, why = classify_consumption(ctx, b, cs)
             key = '%s:%s' % (b.path, cs.path)
-            if not ok and b.path in EXCEPTIONS_ERR1:
-                # structural re-check of the exception: non-EOF kinds are re-raised
-                fl = flow_of(b)
-                kinds = [c for c in b.calls if c.name == 'std::io::Error::kind']
-                reraised = any(e['kind'] == 'err' for e in b.exits())
-                ctx.check(bool(kinds) and reraised, key, where(b, cs.point), 'exception %s: %s' % (b.path, EXCEPTIONS_ERR1[b.path]),
-                          'exception %s no longer inspects io::Error::kind and re-raises: %s' % (b.path, why))
-                continue
             ctx.check(ok, key, where(b, cs.point), '%s: %s' % (kind, why), 'I/O error can be lost during recovery (%s): %s' % (kind, why))
 
 
